@@ -137,6 +137,38 @@ def run(chk, facts, info):
             ok = saved[fld][1] == src
             chk.ob('C10-R3', 'asmallg.c:SAVE:%s-source' % fld, ok, sv.loc(saved[fld][0]),
                    'saves %s' % src[1] if ok else '%s is filled from %s instead of %s' % (fld, show(saved[fld][1]), src[1]))
+    # each restore action depends only on the frame test and on its own field
+    for b, i, ln, n_ in rs.nodes():
+        is_action = (is_assign(n_) and strip(n_[2])[0] in ('g', 'gs')) or (n_[0] == 'call' and callee_name(n_) in (
+            'SetCPUByType', 'SetLstMacroExp', 'EnterIntSymbol'))
+        if not is_action:
+            continue
+        own = {m[2].split('.')[-1] for m in walk(n_) if m[0] == 'm' and m[3] == 1 and m[2].split('.')[-1].startswith(('Save', 'pSave'))}
+        if not own:
+            continue
+        foreign = set()
+        fblocks = {}
+        for cb in rs.blocks.values():
+            if 'cond' not in cb or len(cb['succ']) != 2:
+                continue
+            flds = {m[2].split('.')[-1] for m in walk(cb['cond']) if m[0] == 'm' and m[2].split('.')[-1].startswith(('Save', 'pSave'))}
+            if flds and not (flds & own):
+                fblocks[cb['id']] = flds
+        for pol in (0, 1):
+            # all comparisons of foreign saved fields come out the same way
+            def eok(s_, d_, l, pol=pol):
+                if s_ in fblocks and l is not None and l[0] in ('T', 'F'):
+                    return (l[0] == 'T') == (pol == 0)
+                return True
+            seen = rs.reach_forward([rs.entry], eok)
+            if b not in seen:
+                for v in fblocks.values():
+                    foreign |= v
+        key = 'asmallg.c:CodeRESTORE:independent:%s' % '+'.join(sorted(own))
+        chk.ob('C10-R3', key, not foreign, rs.loc(ln),
+               'restored whenever a frame exists (and its own value differs)' if not foreign else
+               'restoring %s is skipped or forced depending on a comparison of %s: when both differ from the saved frame '
+               'only one of them is reinstated' % ('/'.join(sorted(own)), '/'.join(sorted(foreign))))
     extra = sorted(k for k in saved if k not in read and k != 'Next')
     chk.extra['save_fields_not_restored'] = extra
 
